@@ -367,7 +367,7 @@ fn eval_geno(a: &[&str]) -> String {
         b = b.set_samples(Some(Samples::List(items.into_iter().map(|(k, v)| (Sample::from(k), Population::from(v))).collect())));
     }
     if let Some((ind, v)) = create::parse_project(a[5]) { b = b.set_project(Some(if ind { Project::Individuals(v) } else { Project::Shape(v.into()) })); }
-    let mut reader = match b.build(r) { Ok(r) => r, Err(e) => return format!("ERR build {}", create::build_err_tag(&e.to_string())) };
+    let mut reader = match b.build(r) { Ok(r) => r, Err(e) => return format!("ERR build {}", create::build_err_tag_typed(&e)) };
     let mut scs = reader.create_zero_scs();
     let (mut sites, mut skipped) = (0usize, 0usize);
     loop {
